@@ -373,6 +373,10 @@ fn op_so_ser(session: &mut Session, cmd: &J) -> Result<J, String> {
 		// a sink that accepts what its schedule says (partial writes, interruptions): the bytes it got are what was written
 		let mut sink = crate::io_util::ScheduledSink::new(crate::container::sink_steps(sched)?, cmd.get("repeat_last").and_then(|b| b.as_bool()).unwrap_or(false));
 		let r = serde_avro_fast::to_single_object(&pres, &mut sink, &mut config).map(|_| ());
+		if let Err(e) = &r {
+			// what the sink had received when the call failed, and how many calls it saw
+			return Ok(json!({"res": "err", "msg": e.to_string(), "got": bytes_json(&sink.got), "calls": sink.calls}));
+		}
 		r.map(|_| sink.got)
 	} else if via_writer {
 		serde_avro_fast::to_single_object(&pres, Vec::new(), &mut config)
